@@ -42,6 +42,92 @@ func wideFrameFn(name string, width, base int, between string, probes []int) (sr
 	return sb.String(), want
 }
 
+// slotsFn builds a function whose names are introduced by parameters,
+// assignments (plain, in blocks, conditionals and loops), single and lock-step
+// loop variables that may or may not exist already; every step writes fresh
+// distinct values, and the function returns all its names. want is the value
+// by construction.
+func slotsFn(t *rapid.T) (src, call, want string) {
+	pool := []string{"a", "b", "c", "d", "e", "f", "g", "h", "i", "j", "k", "l"}
+	pool = pool[:rapid.IntRange(3, len(pool)).Draw(t, "names")]
+	name := func() string { return rapid.SampledFrom(pool).Draw(t, "name") }
+	val := map[string]int{}
+	order := []string{}
+	set := func(n string, v int) {
+		if _, ok := val[n]; !ok {
+			order = append(order, n)
+		}
+		val[n] = v
+	}
+	next := 100
+	fresh := func() int { next += 7; return next }
+	params, args := []string{}, []string{}
+	for i := rapid.IntRange(0, 3).Draw(t, "params"); i > 0; i-- {
+		n := name()
+		if _, ok := val[n]; ok {
+			continue
+		}
+		v := fresh()
+		params, args = append(params, n), append(args, fmt.Sprint(v))
+		set(n, v)
+	}
+	lines := []string{}
+	for i := rapid.IntRange(2, 10).Draw(t, "steps"); i > 0; i-- {
+		switch rapid.IntRange(0, 7).Draw(t, "step") {
+		case 0, 1:
+			n, v := name(), fresh()
+			lines = append(lines, fmt.Sprintf("%s = %d", n, v))
+			set(n, v)
+		case 2:
+			n, v := name(), fresh()
+			lines = append(lines, fmt.Sprintf("if %d > 0 {\n%s = %d\n}", v, n, v))
+			set(n, v)
+		case 3:
+			n, v := name(), fresh()
+			lines = append(lines, fmt.Sprintf("for %s <- fromto(%d, %d) 0", n, v-2, v+1))
+			set(n, v)
+		case 4, 5: // lock-step loop, the body introduces or rewrites one more name
+			k := rapid.IntRange(2, 3).Draw(t, "k")
+			vs, its, seen := []string{}, []string{}, map[string]bool{}
+			for len(vs) < k {
+				n := name()
+				if seen[n] {
+					continue
+				}
+				seen[n] = true
+				v := fresh()
+				vs, its = append(vs, n), append(its, fmt.Sprintf("fromto(%d, %d)", v-1, v+1))
+				set(n, v)
+			}
+			body := "0"
+			if n := name(); !seen[n] {
+				v := fresh()
+				body = fmt.Sprintf("{\n%s = %d\n}", n, v)
+				set(n, v)
+			}
+			lines = append(lines, "for "+strings.Join(vs, ", ")+" <- "+strings.Join(its, ", ")+" "+body)
+		case 6:
+			n, v := name(), fresh()
+			w := "w" + letters("", len(lines))
+			lines = append(lines, fmt.Sprintf("%s = 0\nwhile %s < 2 {\n%s = %d + %s\n%s = %s + 1\n}", w, w, n, v-1, w, w, w))
+			set(n, v)
+		default: // a closure over what exists so far is created and called in between
+			if len(order) > 0 {
+				n := rapid.SampledFrom(order).Draw(t, "captured")
+				lines = append(lines, fmt.Sprintf("kk = () -> %s\nif kk() != %d return 0 - 1", n, val[n]))
+			}
+		}
+	}
+	res, wants := []string{}, []string{}
+	for _, n := range order {
+		res = append(res, n)
+		wants = append(wants, fmt.Sprint(val[n]))
+	}
+	lines = append(lines, "["+strings.Join(res, ", ")+"]")
+	return "slots = (" + strings.Join(params, ", ") + ") -> {\n" + strings.Join(lines, "\n") + "\n}",
+		"slots(" + strings.Join(args, ", ") + ")", "[" + strings.Join(wants, ", ") + "]"
+}
+
 func c18ProgProp(rec *ev.Recorder) func(t *rapid.T) {
 	return func(t *rapid.T) {
 		scale := tierScale()
@@ -58,7 +144,11 @@ func c18ProgProp(rec *ev.Recorder) func(t *rapid.T) {
 		stmts := []string{"deep = (n) -> if n <= 0 0 else 1 + deep(n - 1)"}
 		var expect []string // closed-form value per statement ("" = only compared with the reference)
 		expect = append(expect, "")
-		switch rapid.IntRange(0, 3).Draw(t, "shape") {
+		switch rapid.IntRange(0, 5).Draw(t, "shape") {
+		case 4, 5: // every name of a function has a slot of its own, however the name is introduced
+			src, call, want := slotsFn(t)
+			stmts = append(stmts, src, call, "["+call+", "+call+"]")
+			expect = append(expect, "", want, "["+want+", "+want+"]")
 		case 0: // wide frame survives a deep call made from inside it
 			src, want := wideFrameFn("wide", width, base, fmt.Sprintf("deep(%d)", depth), probes)
 			stmts = append(stmts, src, fmt.Sprintf("wide(%d)", arg))
